@@ -839,8 +839,9 @@ class MOVE(Command):
         params, _ = self._parse_line(spline)
         self.dxdydz = None
         self.sign = None
-        if len(params) > 2:
-            self.dxdydz = params[:3]
+        if len(params) > 0:
+            # dy and dz have the default 0:
+            self.dxdydz = (params[:3] + [0, 0])[:3]
         if len(params) > 3:
             self.sign = params[3]
 
